@@ -44,6 +44,7 @@ class BleWorld:
         self.acc = RefBleAccessory(self.ident, chars)
         self.att_payload = att_payload
         self.clients = []
+        self.on_client = None          # callable(client): configure every new link (faults of the stack)
         self.connect_fail = 0
         if cache is None:             # (a caller that brings its own cache decides what it holds)
             cache = CharacteristicCacheMemory()
@@ -61,6 +62,8 @@ class BleWorld:
                 raise AccessoryDisconnectedError("simulated: connection failed")
             c = FakeBleClient(world.acc, disconnected_callback, world.att_payload)
             world.clients.append(c)
+            if world.on_client is not None:
+                world.on_client(c)
             return c
         ble_pairing_mod.establish_connection = establish_connection
         self.pairing = self.controller.load_pairing("alias", dict(self.pairing_data))
